@@ -8,7 +8,6 @@ sys.path.insert(0, os.path.join(os.path.dirname(os.path.abspath(__file__)), ".."
 import vf
 
 EAGAIN, EPIPE, EBADF, ECANCELED = -11, -32, -9, -125
-KNOWN_LOST_CB = "write_callback_lost_when_connect_started_before_delivery"
 
 
 # --------------------------------------------------------------------------
@@ -447,8 +446,9 @@ FIXED_CONN = [
     # a connect started from a write callback (it was stranded by uv__drain before the repair of uv__stream_io)
     "0 0 T ; R R W1 R R R R R R ; | Kl Kl | ; ; settle6",
     "0 0 T ; R R W1 S R R R R R R ; | Kl Kl | ; ; settle6",
-    # known finding write_callback_lost_when_connect_started_before_delivery: the write fails at once (the
-    # request waits in write_completed_queue, watcher fed), the connect is retried before the loop runs again
+    # repaired finding write_callback_lost_when_connect_started_before_delivery: the write fails at once (the
+    # request waits in write_completed_queue, watcher fed), the connect is retried before the loop runs again and
+    # succeeds: uv__stream_connect must hand the wake-up back (the callback was lost for good before the repair)
     "0 0 T ; R R W1 Kl Kl R R R R R R ; | | | ; ; settle6",
     # ... the same start, but the retried connect fails too: the flush delivers the callback
     "0 0 T ; R R W1 Kd Kd R R R R R R ; | | | ; ; settle6",
@@ -703,11 +703,10 @@ def monitor(case, line):
     if settle:
         stuck = [i for i in total if ret.get(i) == 0 and i not in cbs and i not in is_try]
         if stuck and all(i in orphaned for i in stuck):
-            # exactly the catalogued situation: each of these requests was finished and waiting in
-            # write_completed_queue when a connect was accepted on the handle, and its callback never came
-            return (KNOWN_LOST_CB, "requests %s were finished and waiting for their callback when a connect was started "
-                    "on the handle; the fed watcher then ran uv__stream_connect instead of uv__write_callbacks "
-                    "and the callbacks never ran although the loop kept running" % stuck[:5])
+            # the repaired finding write_callback_lost_when_connect_started_before_delivery
+            return (None, "requests %s were finished and waiting for their callback when a connect was started on the "
+                    "handle; the fed watcher then ran uv__stream_connect instead of uv__write_callbacks and the "
+                    "callbacks never ran although the loop kept running (stalled queue)" % stuck[:5])
         if stuck:
             return (None, "requests %s never got their callback although the loop kept running (stalled queue)" % stuck[:5])
         if shut_ok_at is not None and not any(e[0] == "B" for e in trace):
